@@ -339,9 +339,11 @@ def main(tier, replay):
               G.op_filter('even'), G.op_simple('last'), G.op_simple('to_list'), G.op_agg('mean', False)]
     for _ in range(100 if thorough else 30):
         pipe = [rng.choice(fb_ops) for _ in range(rng.choice([1, 1, 2, 3]))]
-        if any(completion_triggered(o) or o['op'] == 'mean' for o in pipe[:-1]) or \
+        if any(completion_triggered(o) or o['op'] in ('mean', 'sum') for o in pipe[:-1]) or \
                 pipe[-1]['op'] in ('last', 'to_list') and len(pipe) > 1:
-            pipe = pipe[-1:]       # (a mean feeds rationals to the integer aggregates of the model)
+            # sum / mean give floats: behind them an integer-seeded scan would leave the seed's type
+            # (precondition of C01), and the integer aggregates of the model do not take rationals
+            pipe = pipe[-1:]
         groups = [(idx, G.ints([rng.randint(0, 4) for _ in range(rng.randint(1, 6))]))
                   for idx in rng.sample([0, 1, 3], rng.choice([1, 2]))]
         sched_seed = rng.randint(0, 10**9)
@@ -382,6 +384,27 @@ def main(tier, replay):
                   for idx in rng.sample([0, 1, 3], rng.choice([2, 3]))]
         sched_seed = rng.randint(0, 10**9)
         tr, gs = pair_direct(random.Random(sched_seed), pipe, groups)
+        traces.append({'pipe': pipe, 'modeled': modeled(pipe), 'oracle': 'pair',
+                       'groups': [{k: g[k] for k in g if k != 'errtype'} for g in gs]})
+        mux_traces.append(tr)
+        meta.append({'mode': 'direct', 'groups': groups, 'sched_seed': sched_seed})
+    # dedicated: items that the value-agnostic operators must carry without looking at them:
+    # falsy values, None, array-like objects whose == / != has no truth value
+    agn = [G.op_simple('last'), G.op_simple('first'), G.op_simple('take', n=2), G.op_simple('to_list'),
+           {'op': 'count', 'reduce': False}, G.op_simple('batch', n=2), {'op': 'identity'}, {'op': 'do_action'},
+           G.op_tee('merge', [[], [G.op_simple('last')]]), G.op_tee('zip', [[], [{'op': 'count', 'reduce': False}]])]
+    pool = [I(0), I(1), NONE, ['s', ''], ['l', []], ['o', 1], ['o', 2]]
+    for _ in range(120 if thorough else 40):
+        pipe = [rng.choice(agn)] + ([rng.choice(agn[:8])] if rng.random() < 0.4 else [])
+        if pipe[0]['op'] in ('last', 'to_list', 'take', 'first') and len(pipe) > 1 and completion_triggered(pipe[1]):
+            pipe = pipe[:1]
+        groups = [(idx, [rng.choice(pool) for _ in range(rng.randint(1, 5))])
+                  for idx in rng.sample([0, 1, 3], rng.choice([1, 2, 3]))]
+        sched_seed = rng.randint(0, 10**9)
+        tr, gs = pair_direct(random.Random(sched_seed), pipe, groups)
+        if any(g.get('errtype') in PRECOND_ERRORS for g in gs):
+            skipped += 1
+            continue
         traces.append({'pipe': pipe, 'modeled': modeled(pipe), 'oracle': 'pair',
                        'groups': [{k: g[k] for k in g if k != 'errtype'} for g in gs]})
         mux_traces.append(tr)
